@@ -162,6 +162,13 @@ def paths(stmt, limit=4096, record_conds=False):
             for p in live:
                 p.events.append(('switch', s))
             return done + live
+        if k in ('Break', 'Continue'):
+            # loops and switches are opaque events here, so a break / continue met at this level leaves the analysed region
+            for p in live:
+                p.events.append(s)
+                p.returned = True
+                p.left_by = k
+            return done + live
         if k == 'Null':
             return ps
         # a conditional expression inside a plain statement is a branch like any other: x = c ? a : b  ==  if (c) x = a; else x = b;
